@@ -370,11 +370,12 @@ func c09Maps(r *core.Run) {
 		r.Check(a != nil && b != nil && a.Block() == b.Block() && a.Key == b.Value && a.Value == b.Key, "C09.MAPS", core.FuncName(rec)+"#mirrored-update", rec.Pos(), "instrMap[old]=new and revInstrMap[new]=old are set in one step", "the two instruction maps are not updated as mirror images in one step")
 		// call sites in the user-matching loop are dominated by both "not yet mapped" tests
 		n := 0
-		for _, fn := range p.FuncsIn("pkg/diff") {
-			if fn == rec {
-				continue
-			}
-			for _, ci := range core.Calls(fn, func(_ string, c *ssa.CallCommon) bool { return core.StaticCallee(c) == rec }) {
+		{
+			for _, vs := range callSitesThroughForwarders(p, "pkg/diff", rec) {
+				fn, ci := vs.fn, vs.call
+				if fn == rec || len(vs.args) < 3 {
+					continue
+				}
 				if core.LoopHeaderOf(ci.Block()) == nil {
 					continue
 				}
@@ -394,7 +395,7 @@ func c09Maps(r *core.Run) {
 					continue
 				}
 				// only the candidate loops (two nested loops) are subject: require lookups on both maps
-				oldV, newV := ci.Common().Args[1], ci.Common().Args[2]
+				oldV, newV := vs.args[1], vs.args[2]
 				chk := func(field string, key ssa.Value) bool {
 					ok1, n1, _ := core.MustPass(fn, ci.Block(), core.BoolGuard(func(x ssa.Value) bool {
 						ex, ok := x.(*ssa.Extract)
